@@ -154,6 +154,7 @@ type HarnessSpec struct {
 	Solver  string         `json:"solver,omitempty"`
 	ConcStores bool        `json:"concretize_stores,omitempty"`
 	StubConst map[string]uint64 `json:"stub_const,omitempty"`
+	StubFirstByte []string `json:"stub_first_byte,omitempty"`
 	// CasePick restricts a vhCase variable to a subset: the listed values plus `random` seeded picks (VERIF_SEED)
 	CasePick map[string]CasePick `json:"case_pick,omitempty"`
 	// Reach tags that must be witnessed by at least one completed path (vacuity guard)
@@ -260,7 +261,7 @@ func runHarness(l *Loaded, spec HarnessSpec, workers int, verbose bool, dumpDir 
 					globalSem <- true
 					defer func() { <-globalSem }()
 					cfg := Config{Unwind: spec.Unwind, Cases: j.cases, Verbose: verbose, FeasTimeoutMs: spec.FeasMs, VerdTimeoutMs: spec.VerdMs,
-						MaxPaths: spec.MaxPath, CaseName: caseName(j.cases), DumpQueries: dumpDir, Params: spec.Params, Solver: spec.Solver, ConcStores: spec.ConcStores, StubConst: spec.StubConst}
+						MaxPaths: spec.MaxPath, CaseName: caseName(j.cases), DumpQueries: dumpDir, Params: spec.Params, Solver: spec.Solver, ConcStores: spec.ConcStores, StubConst: spec.StubConst, StubFirstByte: spec.StubFirstByte}
 					c := NewCtx(l.prog, cfg)
 					defer c.Close()
 					st := &State{heap: map[int]Value{}}
